@@ -125,15 +125,62 @@ def anchorless_allowed(stmts, inputs, optimize: bool) -> set:
                 if isinstance(x, list):
                     collect(x, acc)
             subs[s0[2]] = acc
+    # `cond : value` with a condition made of constants only is decided at compile time: the name is
+    # then the value itself (an alias) or a constant, like a name declared that way directly
+    try:
+        it_ = lang.Interp(stmts)
+        env_ = it_.run({i["name"]: i["init"] for i in inputs}, {})
+    except lang.RefError:
+        it_, env_ = None, {}
+
+    def eff(e) -> set:
+        """Run-time names e really depends on once selections with constant conditions are decided."""
+        if not isinstance(e, list) or not e:
+            return set()
+        if e[0] == "var":
+            return {e[1]} & dyn
+        if e[0] in ("projt", "siglitt"):
+            # only the TYPE of the named signal is used
+            return eff(e[1]) if e[0] == "projt" else eff(e[2])
+        if e[0] == "sel":
+            cd = eff(e[1])
+            if not cd and it_ is not None:
+                try:
+                    truth = lang.ival(it_.ev(e[1], env_))
+                except Exception:
+                    return cd | eff(e[2])
+                return eff(e[2]) if truth else set()
+            return cd | eff(e[2])
+        out: set = set()
+        for x in e[1:]:
+            if isinstance(x, list):
+                out |= eff(x)
+        return out
+
+    def decided_alias(e) -> bool:
+        if e[0] == "var":
+            return True
+        if e[0] == "sel" and not eff(e[1]) and it_ is not None:
+            try:
+                return bool(lang.ival(it_.ev(e[1], env_))) and decided_alias(e[2])
+            except Exception:
+                return False
+        return False
+
     for s in stmts:
         if s[0] != "decl" or s[1] not in ("Signal", "Bundle"):
             continue
         name, ex = s[2], s[3]
-        deps = set(gen.referenced_names([["decl", "Signal", "_", ex]]))
-        if not (deps & dyn):
+        if s[1] == "Bundle":
+            deps = set(gen.referenced_names([["decl", "Signal", "_", ex]])) & dyn
+        else:
+            deps = eff(ex)
+        if not deps:
             ok.add(name)          # constant expression: folded into a constant combinator
         else:
             dyn.add(name)
+            if ex[0] == "sel" and decided_alias(ex):
+                ok.add(name)      # decided selection: an alias of its value
         key = lang.pexpr(ex)
         if optimize and key in seen_exprs:
             ok.add(name)          # CSE duplicate of an earlier declaration
